@@ -76,6 +76,9 @@ def process_twin(rng, rel, kinds):
     if perv is None:
         return None
     rp.initial_perms(sc)                 # the twin is handed the very same initial-permeance objects as the original run
+    if sc["kind"].startswith("ideal") and rng.random() < 0.15:
+        # both runs are made with a Conditions object that described another run first and was edited in place (fraction re-assigned)
+        sc["edit_reuse"] = (rng.choice([2.0, 0.5, 1.0]), rng.choice([1.5, 1.0, 0.25]), rng.uniform(0.5, 1.5), rng.random() < 0.7)
     sb = dict(sc)
     k = 1.0
     kpow2 = False
